@@ -1,5 +1,6 @@
 SPECIFICATION Spec
 CONSTANT Names = {"x"}
 CONSTANT Shapes <- Shapes3
+CONSTANT Flags3 <- FlagSetsQ
 INVARIANT Ok
 CHECK_DEADLOCK FALSE
